@@ -107,6 +107,16 @@ theorem specStep_bag (S T : Table) (h : BagEq S T) (s : Step) (hs : s.isBagStep 
     refine ⟨rfl, ?_⟩
     simp only [specStep, Table.project, hc]
     exact hp.map _
+  | distinct =>
+    refine ⟨hc, ?_⟩
+    simp only [specStep, Table.distinct]
+    rw [List.perm_iff_count]
+    intro r
+    rw [count_dedup, count_dedup]
+    have : r ∈ S.rows ↔ r ∈ T.rows := hp.mem_iff
+    by_cases h : r ∈ S.rows
+    · rw [if_pos h, if_pos (this.mp h)]
+    · rw [if_neg h, if_neg (fun h' => h (this.mpr h'))]
   | _ => simp [Step.isBagStep] at hs
 
 theorem byNameSpec_bag (am : Bool) {L L' R R' : Table} (hL : BagEq L L') (hR : BagEq R R') :
@@ -125,7 +135,7 @@ theorem BagEq.trans {S T U : Table} (h1 : BagEq S T) (h2 : BagEq T U) : BagEq S 
 
 /-- **C07, all nestings.**  For every environment of well-formed input tables and every program built
     from set operations (any method, both unionByName modes), nested to any depth, with `where` /
-    `select` steps anywhere in between or after — PySpark-valid (union-compatible operands) — the SQL
+    `select` / `distinct` steps anywhere in between or after — PySpark-valid (union-compatible operands) — the SQL
     sqlframe builds evaluates to the bag PySpark specifies, under the left operand's names, and the
     result satisfies the clause-order invariant (it "behaves as an ordinary DataFrame"). -/
 theorem C07_prog (env : List Table) : ∀ p : Prog, p.WF env →
